@@ -313,6 +313,17 @@ class C13(Property):
                     full[l * (l + 1) - 1] = a
                 d3 = D.PerturbedDroplet3D(pos, R0, spec["width"], full)
                 ctx.require(bool(np.all(np.abs(d3.interface_distance(th, ph) - rr) <= tol_len)), "axisym:differs-from-3d-m0", "axisymmetric droplet and 3-D droplet with the same m=0 amplitudes have different shapes")
+            # the poles themselves (polar angle exactly 0 and exactly pi, any azimuth) and the equator: distance against the series,
+            # position = centre + distance x direction (the north and south pole lie on opposite sides of the droplet)
+            th_p = np.array([0.0, math.pi, 0.0, math.pi, math.pi / 2])
+            ph_p = np.array([0.0, 0.0, float(ph[0]), float(ph[1]), float(ph[2])])
+            rr_p = dist_fn(th_p, ph_p)
+            ser_p = O.series_axisym(R0, amps, th_p) if axisym else O.series_3d(R0, amps, th_p, ph_p)
+            kind3 = "axisym" if axisym else "3d"
+            if ctx.require(np.shape(rr_p) == (5,) and bool(np.all(np.abs(rr_p - ser_p) <= 1e-11 * R0 * (1 + float(np.abs(amps).sum())))), f"{kind3}:series-harmonics:poles", f"interface_distance at the poles / equator {rr_p} differs from the series {ser_p}"):
+                P_p = np.asarray(d.interface_position(th_p, ph_p), float)
+                expP_p = pos[None, :] + ser_p[:, None] * unit(th_p, ph_p)
+                ctx.require(P_p.shape == expP_p.shape and bool(np.all(np.abs(P_p - expP_p) <= 1e-11 * (R0 + np.abs(pos).max()))), f"{kind3}:interface-position:poles", f"interface_position at the poles differs from centre + distance x direction by {np.abs(P_p - expP_p).max() if P_p.shape == expP_p.shape else P_p.shape}")
             P = d.interface_position(th, ph)
             expP = pos[None, :] + rr[:, None] * unit(th, ph)
             ctx.require(P.shape == expP.shape and bool(np.all(np.abs(P - expP) <= 1e-12 * (R0 + np.abs(pos).max()))), f"{'axisym' if axisym else '3d'}:interface-position", f"interface_position differs from centre + distance x direction by {np.abs(P - expP).max() if P.shape == expP.shape else P.shape}")
